@@ -302,9 +302,20 @@ type secretCrypto interface {
 }
 
 func (m *Message) getSecretString(ctx context.Context) (string, error) {
+	return m.getSecretStringWithMaxSize(ctx, 0)
+}
+
+// getSecretStringWithMaxSize is getSecretString for a size-capped reader: with
+// maxSize > 0 the secret field is read through GetStringWithMaxSize, so the
+// put_secret item following a SecretMarker is subject to the same byte budget
+// as every other string of the ad.
+func (m *Message) getSecretStringWithMaxSize(ctx context.Context, maxSize int) (string, error) {
 	if sc, ok := m.stream.(secretCrypto); ok {
 		sc.PrepareCryptoForSecret()
 		defer sc.RestoreCryptoAfterSecret()
+	}
+	if maxSize > 0 {
+		return m.GetStringWithMaxSize(ctx, maxSize)
 	}
 	return m.GetString(ctx)
 }
@@ -476,7 +487,15 @@ func getClassAdFromMessageWithMaxSize(m *Message, maxSize int, ctx context.Conte
 		// items, one counted expression -- see GetClassAdRawBody). Consume the secret
 		// as the real expression instead of desyncing on the marker.
 		if exprStr == SecretMarker {
-			exprStr, err = m.getSecretString(ctx)
+			secretMax := 0
+			if maxSize > 0 {
+				// The secret counts against the same budget as any other string.
+				secretMax = maxSize - totalBytesRead
+				if secretMax <= 0 {
+					return nil, fmt.Errorf("ClassAd exceeds maximum size (%d bytes) while reading secret expression %d", maxSize, i)
+				}
+			}
+			exprStr, err = m.getSecretStringWithMaxSize(ctx, secretMax)
 			if err != nil {
 				return nil, fmt.Errorf("failed to read secret expression %d (expected %d): %w", i, numExprs, err)
 			}
